@@ -997,7 +997,7 @@ func gen(c *core.Ctx) error {
 	c.Rule("structure-aware malformed inputs to every decoder entry point of the anchors (typed strings / capped strings / skip / raw bytes / bounded and raw ClassAd readers over a recording mock stream in both encryption modes; frame readers, multi-frame reassembly, exchangeKey, SSL receiveMessage over a real stream.Stream on a byte-counting in-memory connection, cleartext and AES-GCM; crypto-state blobs; claim-id / session-info / address / version / watch / shared-port parsers). Every call runs under recover() with a TotalAlloc delta, a running-time bound, a stack-depth probe and byte accounting (direct oracle), and its outcome class, consumed bytes and returned value are compared with the Coq model. non-trivial = case whose every call succeeded; distinct by (mode, bytes, framing, ops)")
 	c.Assume("allocation is measured as runtime.MemStats.TotalAlloc deltas (whole process; background allocation is negligible because the harness is single-threaded apart from the guarded call)")
 	c.Assume("the external ClassAd expression parser is an oracle: the index of the expression it refused is taken from the error and handed to the model")
-	c.PerFile = 250
+	c.PerFile = 330
 	genMessageLevel(c)
 	if !aborted {
 		genQuotedValues(c)
